@@ -620,15 +620,20 @@ impl<RW: QueueRW<T>, T> InnerRecv<RW, T> {
         }
     }
 
-    pub fn unsubscribe(self) -> bool {
-        self.reader.get_consumers() == 1
+    pub fn unsubscribe(mut self) -> bool {
+        // Decided by the decrement that removes this consumer, so that of several
+        // handles of a stream leaving at the same time exactly one is the last.
+        unsafe { self.do_unsubscribe_with(|| ()) }
     }
 
-    /// Runs the passed function after unsubscribing the reader from the queue
-    unsafe fn do_unsubscribe_with<F: FnOnce()>(&mut self, f: F) {
+    /// Runs the passed function after unsubscribing the reader from the queue.
+    /// Returns whether this was the last consumer of its stream.
+    unsafe fn do_unsubscribe_with<F: FnOnce()>(&mut self, f: F) -> bool {
+        let mut was_last = false;
         if self.alive {
             self.alive = false;
             if self.reader.remove_consumer() == 1 {
+                was_last = true;
                 if self
                     .queue
                     .tail
@@ -641,6 +646,7 @@ impl<RW: QueueRW<T>, T> InnerRecv<RW, T> {
             fence(SeqCst);
             f()
         }
+        was_last
     }
 }
 
@@ -727,8 +733,13 @@ impl<RW: QueueRW<T>, T> FutInnerRecv<RW, T> {
     }
 
     /// Identical to InnerRecv::unsubscribe()
-    pub fn unsubscribe(self) -> bool {
-        self.reader.reader.get_consumers() == 1
+    pub fn unsubscribe(mut self) -> bool {
+        let prod_wait = self.prod_wait.clone();
+        unsafe {
+            self.reader.do_unsubscribe_with(|| {
+                prod_wait.notify();
+            })
+        }
     }
 }
 
@@ -768,8 +779,13 @@ impl<RW: QueueRW<T>, R, F: FnMut(&T) -> R, T> FutInnerUniRecv<RW, R, F, T> {
     }
 
     /// Identical to InnerRecv::unsubscribe()
-    pub fn unsubscribe(self) -> bool {
-        self.reader.reader.get_consumers() == 1
+    pub fn unsubscribe(mut self) -> bool {
+        let prod_wait = self.prod_wait.clone();
+        unsafe {
+            self.reader.do_unsubscribe_with(|| {
+                prod_wait.notify();
+            })
+        }
     }
 
     pub fn into_multi(self) -> FutInnerRecv<RW, T> {
@@ -1094,7 +1110,9 @@ impl<RW: QueueRW<T>, T> Drop for InnerSend<RW, T> {
 
 impl<RW: QueueRW<T>, T> Drop for InnerRecv<RW, T> {
     fn drop(&mut self) {
-        unsafe { self.do_unsubscribe_with(|| ()) }
+        unsafe {
+            self.do_unsubscribe_with(|| ());
+        }
     }
 }
 
@@ -1133,7 +1151,7 @@ impl<RW: QueueRW<T>, T> Drop for FutInnerRecv<RW, T> {
         unsafe {
             self.reader.do_unsubscribe_with(|| {
                 prod_wait.notify();
-            })
+            });
         }
     }
 }
@@ -1144,7 +1162,7 @@ impl<RW: QueueRW<T>, R, F: for<'r> FnMut(&T) -> R, T> Drop for FutInnerUniRecv<R
         unsafe {
             self.reader.do_unsubscribe_with(|| {
                 prod_wait.notify();
-            })
+            });
         }
     }
 }
